@@ -131,6 +131,9 @@ func render(d any, rng *rand.Rand, vary bool, ws int, sb *strings.Builder, depth
 	}
 	switch x := d.(type) {
 	case string:
+		if vary && len(x) > 2 && x[0] == '"' && rng.Intn(4) == 0 {
+			x = escapeSome(x, rng)
+		}
 		sb.WriteString(x)
 	case []any:
 		sb.WriteString("[")
@@ -166,7 +169,11 @@ func render(d any, rng *rand.Rand, vary bool, ws int, sb *strings.Builder, depth
 				sb.WriteString(",")
 			}
 			sb.WriteString(nl)
-			fmt.Fprintf(sb, "%q:%s", m.k, sp)
+			kq := fmt.Sprintf("%q", m.k)
+			if vary && rng.Intn(6) == 0 {
+				kq = escapeSome(kq, rng)
+			}
+			sb.WriteString(kq + ":" + sp)
 			render(m.v, rng, vary, ws, sb, depth+1)
 		}
 		if ws == 2 {
@@ -174,6 +181,20 @@ func render(d any, rng *rand.Rand, vary bool, ws int, sb *strings.Builder, depth
 		}
 		sb.WriteString("}")
 	}
+}
+
+// escapeSome rewrites one character of a rendered JSON string as a \uXXXX escape (or '/' as \/):
+// a different spelling of the same JSON string.
+func escapeSome(q string, rng *rand.Rand) string {
+	body := q[1 : len(q)-1]
+	if len(body) == 0 || strings.ContainsAny(body, "\\") {
+		return q
+	}
+	i := rng.Intn(len(body))
+	if body[i] >= 0x80 {
+		return q
+	}
+	return `"` + body[:i] + fmt.Sprintf("\\u%04x", body[i]) + body[i+1:] + `"`
 }
 
 func emitSchemaParse(c *driverCtx, key string, s node, text string) {
